@@ -4,7 +4,7 @@ Model: `Model/Route.lean` (the code after the three `fix:` commits F12, F12b, F1
 Quantifiers: every pattern value `Pat` (scheme?, absolute, segments) subject to the stated decidable side
 conditions, every parameter map, every URI `(scheme?, path)`, every byte string.
 -/
-import SwimVerif.Proofs.RoutePlane
+import SwimVerif.Proofs.RoutePlaneMeta
 
 set_option linter.unusedVariables false
 set_option linter.unusedSimpArgs false
@@ -341,5 +341,145 @@ example : buildOk [⟨none, true, [.lit []]⟩, ⟨none, false, [.lit [], .lit [
     ((Pat.mk none true [.lit []]).unapplyUri none [47]).isSome = true ∧
     ((Pat.mk none false [.lit [], .lit []]).unapplyUri none [47]).isSome = true ∧
     (Pat.mk none true [.lit []]).renderable = false := by decide
+
+/-! ## … and for a server with introspection (`ServerBuilder::build` + `register_introspection`)
+
+With `enable_introspection` the server's table is the plane's routes followed by the meta-agent routes
+(`Generated/MetaRoutes.lean`: texts and registration order read from `swimos_introspection`), and `build` also runs
+`PlaneModel::check_meta_collisions`, which compares every user route with the **node** and **lane** meta patterns. -/
+
+/-- The three constants parse (so `mesh_pattern()` … never panic) to these values. -/
+theorem C18_meta_patterns_parse :
+    parsePattern Generated.meshPatternText = .ok metaMesh ∧ parsePattern Generated.nodePatternText = .ok metaNode ∧
+    parsePattern Generated.lanePatternText = .ok metaLane ∧ metaRows = [metaMesh, metaNode, metaLane] :=
+  ⟨metaMesh_parsed, metaNode_parsed, metaLane_parsed, metaRows_eq⟩
+
+/-- `are_ambiguous` is symmetric (the code calls it as `(meta, route)` here and as `(earlier, later)` in `build`). -/
+theorem C18_ambiguous_symmetric (p q : Pat) : areAmbiguous p q = areAmbiguous q p := areAmbiguous_comm p q
+
+/-- The report of `PlaneBuilder::build` (`AmbiguousRoutes::Overlapping`) is empty exactly when no pair `i < j` is
+ambiguous: the model with the error list and the Boolean model of the earlier theorems are the same acceptance test. -/
+theorem C18_build_report_empty_iff (ps : List Pat) : buildBad ps = [] ↔ buildOk ps = true := buildBad_nil_iff ps
+
+/-- `check_meta_collisions` answers `Ok(())` exactly when no route is ambiguous with the node or the lane pattern. -/
+theorem C18_check_meta_ok_iff (ps : List Pat) :
+    checkMeta ps = none ↔ ∀ p ∈ ps, areAmbiguous metaNode p = false ∧ areAmbiguous metaLane p = false :=
+  checkMeta_none_iff ps
+
+/-- FULL STATEMENT for the checked meta routes. For every table of registered patterns that `build` accepts WITH
+introspection (`PlaneBuilder::build` and `check_meta_collisions` both succeed) and every URI, at most one row of
+`user routes ++ [node meta, lane meta]` matches. -/
+theorem C18_plane_with_meta_at_most_one (ps : List Pat) (hreg : Registered ps) (hb : buildOk ps = true)
+    (hm : checkMeta ps = none) (sch : Option Bytes) (path : Bytes) :
+    (ps ++ [metaNode, metaLane]).countP (fun p => (p.unapplyUri sch path).isSome) ≤ 1 :=
+  C18_plane_at_most_one _ (registered_append ps _ hreg registered_meta) (buildOk_with_meta ps hb hm) sch path
+
+/-- Hence: no URI is matched both by a user route and by the node or lane meta-agent pattern … -/
+theorem C18_plane_with_meta_disjoint (ps : List Pat) (hreg : Registered ps) (hb : buildOk ps = true)
+    (hm : checkMeta ps = none) (sch : Option Bytes) (path : Bytes) (p : Pat) (hp : p ∈ ps)
+    (hmatch : (p.unapplyUri sch path).isSome = true) :
+    metaNode.unapplyUri sch path = none ∧ metaLane.unapplyUri sch path = none := by
+  have h := C18_plane_with_meta_at_most_one ps hreg hb hm sch path
+  rw [List.countP_append] at h
+  have h1 : 0 < ps.countP (fun p => (p.unapplyUri sch path).isSome) := List.countP_pos_iff.mpr ⟨p, hp, hmatch⟩
+  have h2 : [metaNode, metaLane].countP (fun p => (p.unapplyUri sch path).isSome) = 0 := by omega
+  rw [List.countP_eq_zero] at h2
+  have hn := h2 metaNode (by simp)
+  have hl := h2 metaLane (by simp)
+  constructor
+  · cases h : metaNode.unapplyUri sch path <;> simp_all
+  · cases h : metaLane.unapplyUri sch path <;> simp_all
+
+/-- … and the user-route uniqueness still holds. -/
+theorem C18_plane_with_meta_user_unique (ps : List Pat) (hreg : Registered ps) (hb : buildOk ps = true)
+    (hm : checkMeta ps = none) (sch : Option Bytes) (path : Bytes) :
+    ps.countP (fun p => (p.unapplyUri sch path).isSome) ≤ 1 := by
+  have h := C18_plane_with_meta_at_most_one ps hreg hb hm sch path
+  rw [List.countP_append] at h
+  omega
+
+/-- The same for every route *string* (`RouteUri::from_str` then `find_route`). -/
+theorem C18_plane_with_meta_at_most_one_str (ps : List Pat) (hreg : Registered ps) (hb : buildOk ps = true)
+    (hm : checkMeta ps = none) (route : Bytes) :
+    (ps ++ [metaNode, metaLane]).countP (fun p => (p.unapplyStr route).isSome) ≤ 1 :=
+  C18_plane_at_most_one_str _ (registered_append ps _ hreg registered_meta) (buildOk_with_meta ps hb hm) route
+
+/-- `find_route` over `user routes ++ [node meta, lane meta]`: the first match is the only match. -/
+theorem C18_find_route_with_meta_is_the_match (ps : List Pat) (hreg : Registered ps) (hb : buildOk ps = true)
+    (hm : checkMeta ps = none) (sch : Option Bytes) (path : Bytes) (i : Nat) (kv : KV)
+    (h : findRoute (ps ++ [metaNode, metaLane]) sch path = some (i, kv)) :
+    ∀ j q, (ps ++ [metaNode, metaLane])[j]? = some q → j ≠ i → q.unapplyUri sch path = none :=
+  C18_find_route_is_the_match_registered _ (registered_append ps _ hreg registered_meta)
+    (buildOk_with_meta ps hb hm) sch path i kv h
+
+/-- Non-vacuity: `["/unit/:id", "swimos:meta:host/:h"]` is accepted with introspection; `:a/:b/lane/:c` (the
+seeded-mutation witness) and `:a/:b` are refused by `check_meta_collisions`, with the meta route that collides. -/
+def exIntroTable : List Pat :=
+  [⟨none, true, [.lit [117, 110, 105, 116], .param [105, 100]]⟩,
+   ⟨some [115, 119, 105, 109, 111, 115], false, [.lit [109, 101, 116, 97, 58, 104, 111, 115, 116], .param [104]]⟩]
+example : buildOk exIntroTable = true ∧ checkMeta exIntroTable = none ∧
+    (∀ p ∈ exIntroTable, p.renderable = true) ∧
+    checkMeta [⟨none, false, [.param [97], .param [98], .lit [108, 97, 110, 101], .param [99]]⟩] =
+      some ([Generated.lanePatternText], [0]) ∧
+    checkMeta (exIntroTable ++ [⟨none, false, [.param [97], .param [98]]⟩]) =
+      some ([Generated.nodePatternText], [2]) ∧
+    buildBad [exP, exQ, ⟨none, true, [.lit [97], .lit [99]]⟩] = [0, 1, 2] ∧
+    buildBad [exP, ⟨none, true, [.lit [97], .lit [99], .lit [100]]⟩, exQ] = [0, 2] := by decide
+
+/-! ### the mesh meta route is registered but never checked (finding F12d)
+
+`register_introspection` appends **three** routes — `swimos:meta:mesh` first — while `check_meta_collisions` looks at
+two. The statement for the table the server really uses is therefore false of the current code. -/
+
+/-- The statement one wants: accepted with introspection ⇒ at most one row of the server's table matches. -/
+def C18_plane_with_introspection_at_most_one : Prop :=
+  ∀ (ps : List Pat), Registered ps → acceptPlane true ps = true → ∀ (sch : Option Bytes) (path : Bytes),
+    (serverRows true ps).countP (fun p => (p.unapplyUri sch path).isSome) ≤ 1
+
+/-- `swimos::x` (scheme `swimos`, one parameter): parses. -/
+def exMeshClash : Pat := ⟨some [115, 119, 105, 109, 111, 115], false, [.param [120]]⟩
+
+/-- Witness: the plane `["swimos::x"]` is accepted with introspection, and `swimos:meta:mesh` is matched by the user
+route (row 0, which `find_route` returns) *and* by the mesh meta route (row 1). -/
+theorem C18_plane_with_introspection_at_most_one_fails : ¬ C18_plane_with_introspection_at_most_one := by
+  intro h
+  have hreg : Registered [exMeshClash] := by
+    intro p hp
+    simp only [List.mem_cons, List.not_mem_nil, or_false] at hp
+    subst hp
+    exact (parse_image _).mpr (by decide)
+  have := h [exMeshClash] hreg (by decide) (some [115, 119, 105, 109, 111, 115]) [109, 101, 116, 97, 58, 109, 101, 115, 104]
+  revert this
+  decide
+
+example : findRoute (serverRows true [exMeshClash]) (some [115, 119, 105, 109, 111, 115]) [109, 101, 116, 97, 58, 109, 101, 115, 104] =
+      some (0, [([120], [109, 101, 116, 97, 58, 109, 101, 115, 104])]) ∧
+    matchingRows 0 (some [115, 119, 105, 109, 111, 115]) [109, 101, 116, 97, 58, 109, 101, 115, 104]
+      (serverRows true [exMeshClash]) = [0, 1] := by decide
+
+/-- What holds of the current code for the whole table: if, in addition, no user route is ambiguous with the mesh
+pattern (the check `fixes/F12d.patch` adds), at most one row of `user routes ++ [mesh, node, lane]` matches. -/
+theorem C18_plane_with_introspection_at_most_one_partial (ps : List Pat) (hreg : Registered ps)
+    (ha : acceptPlane true ps = true) (hmesh : ∀ p ∈ ps, areAmbiguous metaMesh p = false)
+    (sch : Option Bytes) (path : Bytes) :
+    (serverRows true ps).countP (fun p => (p.unapplyUri sch path).isSome) ≤ 1 := by
+  simp only [acceptPlane, Bool.not_true, Bool.false_or, Bool.and_eq_true, List.isEmpty_iff,
+    Option.isNone_iff_eq_none] at ha
+  have hb := (buildBad_nil_iff ps).mp ha.1
+  simp only [serverRows, ↓reduceIte]
+  exact C18_plane_at_most_one _ (registered_append ps _ hreg registered_metaRows)
+    (buildOk_with_all_meta ps hb ha.2 hmesh) sch path
+
+/-- Without introspection the server's table is the plane's table (the earlier theorems apply as they are). -/
+theorem C18_server_rows_without_introspection (ps : List Pat) (hreg : Registered ps)
+    (ha : acceptPlane false ps = true) (sch : Option Bytes) (path : Bytes) :
+    (serverRows false ps).countP (fun p => (p.unapplyUri sch path).isSome) ≤ 1 := by
+  simp only [acceptPlane, Bool.not_false, Bool.true_or, Bool.and_true, List.isEmpty_iff] at ha
+  exact C18_plane_at_most_one ps hreg ((buildBad_nil_iff ps).mp ha) sch path
+
+/-- The `all` column of the `find` op is the list the `countP` statements count. -/
+theorem C18_matching_rows_count (sch : Option Bytes) (path : Bytes) (ps : List Pat) :
+    (matchingRows 0 sch path ps).length = ps.countP (fun p => (p.unapplyUri sch path).isSome) :=
+  matchingRows_length 0 sch path ps
 
 end SwimVerif.Route
